@@ -326,12 +326,6 @@ def run_sql(ck):
     elif unk_l:
         o, v = unk_l[0]
         ck.violation({"property": "C08", "part": "logql_metric_correct", "kind": why[1], "case": witness_rows(byid[o["id"]], ""), "observed_fragment": o["value"]}, no_input=True)
-    # ---- a text mismatch without a judged fragment: the tie is broken, no concrete failing input
-    mism = getattr(ck, "metric_mismatch_cases", [])
-    if mism and not ck.violations:
-        worst = min(mism, key=lambda c: len(c["query"]))
-        ck.violation({"property": "C08", "part": "correspondence", "kind": "planner model and implementation print different SQL; the judged fragments still agree with the reference",
-                      "case": witness_rows(worst, worst.get("diff", ""))}, no_input=True)
     # ---- coverage
     hist = {}
     distinct = set()
@@ -368,95 +362,148 @@ def parse_exec_rows(txt):
     return out
 
 
-def ocaml_exec(ck, name, cases, timeout=1200):
-    """model/LogqlMetricExec.exec_case over (script, ctx, databases) through the OCaml extraction; the case file is compiled
-    to bytecode (large terms: ocamlopt takes ~0.1 s per case)"""
-    import shutil
-    import time
-    import vcheck
-    d = os.path.join(vcheck.BUILD, "ocaml", vcheck.repo_tag(), "%s_%s_%d" % (name, ck.pid, os.getpid()))
-    os.makedirs(d, exist_ok=True)
-    t = time.time()
-    rc, out = vcheck.sh(["coqc", "-R", vcheck.COQ, "Qryn", "-w", "-extraction", "-o", os.path.join(d, "ExtractLogqlExec.vo"),
-                         os.path.join(vcheck.COQ, "extract", "ExtractLogqlExec.v")], cwd=d, timeout=600)
-    if rc != 0:
-        return rc, "extraction failed: " + out[-2000:]
-    chunks = []
-    for k in range(0, len(cases), 25):
-        chunks.append("let chunk%d = [\n %s]\n" % (k // 25, ";\n ".join("(%d, %s, %s, %s)" % (c["id"], c["script_ml"], c["ctx_ml"], c["dbs_ml"]) for c in cases[k:k + 25])))
-    txt = "".join(chunks) + "let cases = List.concat [" + "; ".join("chunk%d" % i for i in range(len(chunks))) + "]\n"
-    prelude = open(os.path.join(vcheck.VERIF, "ocaml", "prelude.ml")).read()
-    open(os.path.join(d, "cases.ml"), "w").write("open Logqlexec\n%s\n%s\n" % (prelude, txt))
-    shutil.copy(os.path.join(vcheck.VERIF, "ocaml", "logqlx_driver.ml"), os.path.join(d, "driver.ml"))
-    rc, out = vcheck.sh(["sh", "-c", "ulimit -s unlimited 2>/dev/null; exec ocamlfind ocamlc -w -a -o run logqlexec.mli logqlexec.ml cases.ml driver.ml"], cwd=d, timeout=timeout)
-    if rc != 0:
-        return rc, "ocaml build failed: " + out[-3000:]
-    tb = time.time() - t
-    rc, out = vcheck.sh(["sh", "-c", "ulimit -s unlimited 2>/dev/null; exec ./run"], cwd=d, timeout=timeout)
-    shutil.rmtree(d, ignore_errors=True)
-    ck.log("ocaml eval %s rc=%d (extract+build %.1fs, total %.1fs)" % (name, rc, tb, time.time() - t))
-    ck.checker_cmds.append("coqc extract/ExtractLogqlExec.v -> ocamlc -> run (the metric statements executed by SqlEvalAgg over generated databases, compared with metric_ref_db)")
-    return rc, out
+class ExecRunner:
+    """model/LogqlMetricExec.impl_case (the implementation's statement, parsed back) resp. exec_case (the model's statement) over
+    (script, ctx, databases) through the OCaml extraction; extracted once per check run, the case file is compiled to bytecode
+    (large terms: ocamlopt takes ~0.1 s per case)"""
+
+    def __init__(self, ck):
+        import vcheck
+        self.ck = ck
+        self.dir = os.path.join(vcheck.BUILD, "ocaml", vcheck.repo_tag(), "logqlx_%s_%d" % (ck.pid, os.getpid()))
+        self.ready = False
+
+    def prepare(self):
+        import shutil
+        import vcheck
+        if self.ready:
+            return 0, ""
+        os.makedirs(self.dir, exist_ok=True)
+        rc, out = vcheck.sh(["coqc", "-R", vcheck.COQ, "Qryn", "-w", "-extraction", "-o", os.path.join(self.dir, "ExtractLogqlExec.vo"),
+                             os.path.join(vcheck.COQ, "extract", "ExtractLogqlExec.v")], cwd=self.dir, timeout=600)
+        if rc != 0:
+            return rc, "extraction failed: " + out[-2000:]
+        shutil.copy(os.path.join(vcheck.VERIF, "ocaml", "logqlx_driver.ml"), os.path.join(self.dir, "driver.ml"))
+        rc, out = vcheck.sh(["sh", "-c", "ulimit -s unlimited 2>/dev/null; exec ocamlfind ocamlc -w -a -c logqlexec.mli logqlexec.ml"], cwd=self.dir, timeout=600)
+        if rc != 0:
+            return rc, "ocaml build of the extraction failed: " + out[-2000:]
+        self.ready = True
+        self.ck.checker_cmds.append("coqc extract/ExtractLogqlExec.v -> ocamlc -> run (the implementation's metric statements, parsed back from their text, executed by SqlEvalAgg over generated databases, compared with metric_ref_db)")
+        return 0, ""
+
+    def run(self, name, cases, timeout=1200):
+        import time
+        import vcheck
+        t = time.time()
+        rc, out = self.prepare()
+        if rc != 0:
+            return rc, out
+        chunks = []
+        for k in range(0, len(cases), 25):
+            chunks.append("let chunk%d = [\n %s]\n" % (k // 25, ";\n ".join("(%d, %s, %s, %s, %s)" % (
+                c["id"], c["script_ml"], c["ctx_ml"], c["dbs_ml"], ("Some (%s)" % c["sql_tree_ml"]) if c.get("sql_tree_ml") else "None") for c in cases[k:k + 25])))
+        txt = "".join(chunks) + "let cases = List.concat [" + "; ".join("chunk%d" % i for i in range(len(chunks))) + "]\n"
+        prelude = open(os.path.join(vcheck.VERIF, "ocaml", "prelude.ml")).read()
+        open(os.path.join(self.dir, "cases.ml"), "w").write("open Logqlexec\n%s\n%s\n" % (prelude, txt))
+        rc, out = vcheck.sh(["sh", "-c", "ulimit -s unlimited 2>/dev/null; exec ocamlfind ocamlc -w -a -o run logqlexec.cmo cases.ml driver.ml"], cwd=self.dir, timeout=timeout)
+        if rc != 0:
+            return rc, "ocaml build failed: " + out[-3000:]
+        tb = time.time() - t
+        rc, out = vcheck.sh(["sh", "-c", "ulimit -s unlimited 2>/dev/null; exec ./run"], cwd=self.dir, timeout=timeout)
+        self.ck.log("ocaml eval %s rc=%d (extract+build %.1fs, total %.1fs)" % (name, rc, tb, time.time() - t))
+        return rc, out
+
+    def close(self):
+        import shutil
+        shutil.rmtree(self.dir, ignore_errors=True)
 
 
-def run_exec(ck):
-    """hint (e): the statement of the planner model (tied byte for byte to the implementation's statement on the SAME case) is
-    executed over small databases by model/SqlEvalAgg.v and compared with the reference over the stored data"""
-    ok, out = ck.coq_make(["model/LogqlMetricExec.vo", "model/LogqlCases.vo"])
-    if not ok:
-        ck.obligation("execution model builds", False, out[-1500:])
-        return
-    outp = os.path.join(ck.work, "logqlsql_metricdb.jsonl")
-    rc, out = ck.go_run("logqlsql", ["--mode", "metricdb", "--seed", ck.seed, "--n", ck.n(130, 3000), "--dbs", 2, "--out", outp], timeout=1800)
-    if rc != 0:
-        ck.obligation("harness logqlsql --mode metricdb ran", False, out[-1500:])
-        return
-    cases = [json.loads(l) for l in open(outp)]
-    corpus = os.path.join(CORPUS, "exec.jsonl")
-    if os.path.exists(corpus):
-        outc = os.path.join(ck.work, "logqlsql_exec_corpus.jsonl")
-        rc, out = ck.go_run("logqlsql", ["--cases", corpus, "--out", outc])
-        if rc == 0:
-            wit = [json.loads(l) for l in open(outc)]
-            for c in wit:
-                c["id"] = 3000000 + c["id"]
-                c["class"] = (c.get("class") or []) + ["corpus"]
-            cases = wit + cases
-    # tie: the statement that is executed is the implementation's statement, byte for byte, on every executed case
-    usable, mism, _ = sqltext.compare_metric(ck, cases, name="logqlm_exec")
-    ck.obligation("correspondence on the %d executed cases: the model's statement is the implementation's statement, byte for byte" % len(usable),
-                  mism is not None and not mism, "; ".join("%s => %s" % (c["query"], c.get("diff")) for c in (mism or [])[:3]))
-    if mism:
-        ck.metric_mismatch_cases = getattr(ck, "metric_mismatch_cases", []) + mism
-    bad_ids = {c["id"] for c in (mism or [])}
-    run = [c for c in usable if c.get("sql") and c.get("dbs_ml") and c["id"] not in bad_ids]
-    rc, out = ocaml_exec(ck, "logqlx", run)
-    if rc != 0:
-        ck.obligation("metric statements executed over the generated databases", False, out[-2000:])
-        return
-    byid = {c["id"]: c for c in run}
-    verd, got, want, m15, vdef, wdef = {}, {}, {}, {}, {}, {}
+def parse_exec_out(out):
+    r = {"verd": {}, "got": {}, "want": {}, "m15": {}, "vdef": {}, "wdef": {}, "text": {}}
     for ln in out.splitlines():
         p = ln.split(" ")
         if p[0] == "S":
-            m15[int(p[1])] = p[2] == "1"
+            r["m15"][int(p[1])] = p[2] == "1"
+        elif p[0] == "T":
+            r["text"][int(p[1])] = p[2]
         elif p[0] == "D":
-            verd[(int(p[1]), int(p[2]))] = (int(p[3]), int(p[4]))
-            vdef[(int(p[1]), int(p[2]))] = int(p[5])
-        elif p[0] == "G":
-            got[(int(p[1]), int(p[2]))] = parse_exec_rows(p[3] if len(p) > 3 else "")
-        elif p[0] == "W":
-            want[(int(p[1]), int(p[2]))] = parse_exec_rows(p[3] if len(p) > 3 else "")
-        elif p[0] == "F":
-            wdef[(int(p[1]), int(p[2]))] = parse_exec_rows(p[3] if len(p) > 3 else "")
-    hist = {"agree": 0, "tie-dependent": 0, "differ": 0, "not-evaluated": 0, "no-reference": 0, "shortcut-window-unaligned": 0}
-    differ, noeval = [], []
-    distinct = set()
-    for (i, k), (v1, v2) in sorted(verd.items()):
+            r["verd"][(int(p[1]), int(p[2]))] = (int(p[3]), int(p[4]))
+            r["vdef"][(int(p[1]), int(p[2]))] = int(p[5])
+        elif p[0] in ("G", "W", "F"):
+            r[{"G": "got", "W": "want", "F": "wdef"}[p[0]]][(int(p[1]), int(p[2]))] = parse_exec_rows(p[3] if len(p) > 3 else "")
+    return r
+
+
+def harness_cases(ck, name, cases):
+    """cases (query, ctx, dbs) through the real parser and planners: the lines of `logqlsql --cases`"""
+    inp = os.path.join(ck.work, name + "_in.jsonl")
+    outp = os.path.join(ck.work, name + "_out.jsonl")
+    with open(inp, "w") as f:
+        for c in cases:
+            f.write(json.dumps({k: c[k] for k in ("id", "query", "ctx", "dbs") if k in c} | {"runs": 1, "metric": True}) + "\n")
+    rc, out = ck.go_run("logqlsql", ["--cases", inp, "--out", outp])
+    if rc != 0:
+        return None
+    return [json.loads(l) for l in open(outp)]
+
+
+def shrink_db(ck, xr, c, k, r0):
+    """greedy shrinking of the database of a violating case: drop one stored line or one series (with its lines) at a time while
+    the implementation's statement still answers something else than the definition under BOTH tie orders"""
+    db = c["dbs"][k]
+    got, want = r0["got"].get((c["id"], k)), r0["want"].get((c["id"], k))
+    for rnd in range(16):
+        cands = [{"series": db["series"], "samples": db["samples"][:j] + db["samples"][j + 1:]} for j in range(len(db["samples"]))]
+        cands = [{"series": db["series"][:j] + db["series"][j + 1:], "samples": [x for x in db["samples"] if x["fp"] != s["fp"]]}
+                 for j, s in enumerate(db["series"])] + cands
+        if not cands:
+            break
+        hc = harness_cases(ck, "shrink", [{"id": 1, "query": c["query"], "ctx": c["ctx"], "dbs": cands}])
+        if not hc or not hc[0].get("dbs_ml") or not hc[0].get("script_ml"):
+            break
+        rc, out = xr.run("logqlx_shrink%d" % rnd, hc)
+        if rc != 0:
+            break
+        r = parse_exec_out(out)
+        hit = [j for j in range(len(cands)) if r["verd"].get((1, j)) == (1, 1)]
+        if not hit:
+            break
+        db, got, want = cands[hit[0]], r["got"].get((1, hit[0])), r["want"].get((1, hit[0]))
+    return db, got, want
+
+
+def judge_exec(ck, xr, run, label):
+    """executes the cases, returns (parsed output, histogram, differing (id, k), unevaluated (id, k), distinct non-trivial keys)"""
+    rc, out = xr.run(label, run)
+    if rc != 0:
+        ck.obligation("metric statements executed over the databases (%s)" % label, False, out[-2000:])
+        return None
+    r = parse_exec_out(out)
+    byid = {c["id"]: c for c in run}
+    # the prepared tree IS the implementation's statement: it renders to its bytes
+    tbad = []
+    for c in run:
+        t = r["text"].get(c["id"])
+        if t == "model":
+            continue
+        want_b = c["sql"][0].encode("utf8", "surrogateescape")
+        if t is None or t == "-" or bytes.fromhex(t) != want_b:
+            c["tree_diff"] = "no rendering" if t in (None, "-") else sqltext.first_diff(bytes.fromhex(t), want_b)
+            tbad.append(c)
+    ck.obligation("execution (%s): render(prep(parse(statement))) = the implementation's statement, byte for byte, on the %d executed cases" % (label, len(run)),
+                  not tbad, "; ".join("%s => %s" % (c["query"], c["tree_diff"]) for c in tbad[:3]))
+    tbad_ids = {c["id"] for c in tbad}
+    hist = {"agree": 0, "tie-dependent": 0, "differ": 0, "not-evaluated": 0, "no-reference": 0, "shortcut-window-unaligned": 0, "text-not-rendered": 0}
+    differ, noeval, distinct = [], [], set()
+    unaligned = lambda i: r["m15"].get(i) and (byid[i]["ctx"]["from_ns"] % 15000000000 or byid[i]["ctx"]["to_ns"] % 15000000000)
+    for (i, k), (v1, v2) in sorted(r["verd"].items()):
         c = byid[i]
+        if i in tbad_ids:
+            hist["text-not-rendered"] += 1
+            continue
         # the roll-up table is read in whole 15 s slots below floor15(to): a window that is not made of whole slots is answered
         # from another set of lines than the definition's [from, to) (design.d/C08.md "Not covered"); judged when aligned
-        if m15.get(i) and (c["ctx"]["from_ns"] % 15000000000 or c["ctx"]["to_ns"] % 15000000000):
+        if unaligned(i):
             hist["shortcut-window-unaligned"] += 1
             continue
         if v1 == 3 or v1 == 4:
@@ -473,6 +520,79 @@ def run_exec(ck):
         else:
             hist["differ"] += 1
             differ.append((i, k))
+    r["unaligned"] = unaligned
+    return r, hist, differ, noeval, distinct
+
+
+def exec_violation(ck, xr, c, k, r, shrink=True):
+    db, got, want = c["dbs"][k], r["got"].get((c["id"], k)), r["want"].get((c["id"], k))
+    if shrink:
+        db, got, want = shrink_db(ck, xr, c, k, r)
+    ck.violation({"property": "C08", "part": "logql_metric_correct", "kind": "the implementation's statement, executed over the database, answers other series / values than the definition",
+                  "case": {"query": c["query"], "ctx": c["ctx"], "db": db}, "sql": c["sql"][0][:6000],
+                  "got_from_statement": got, "expected_by_definition": want,
+                  "failing_input": "the database of this case (series / stored lines as listed; shrunk greedily: dropping any one line or series makes the two answers equal), query and context as given",
+                  "replay": "bin/check C08 --replay <this file>: the query goes through the real parser and planners again, the statement they print is parsed back and executed over the recorded database (model/SqlEvalAgg.v) and compared with metric_ref_db; or send the query to a reader over a ClickHouse holding these rows"})
+
+
+def run_exec(ck, replay=None):
+    """the IMPLEMENTATION's statement - the text the real planners print, parsed back into the tree of model/Sql.v, every WITH
+    reference bound by alias to the member of the statement's own WITH list - is executed over small databases by
+    model/SqlEvalAgg.v and compared with the reference over the stored data"""
+    ok, out = ck.coq_make(["model/LogqlMetricExec.vo", "model/LogqlCases.vo"])
+    if not ok:
+        ck.obligation("execution model builds", False, out[-1500:])
+        return
+    if replay is not None:
+        cases = harness_cases(ck, "replay", [replay])
+        if not cases:
+            ck.obligation("replay: harness logqlsql --cases ran", False, "")
+            return
+    else:
+        outp = os.path.join(ck.work, "logqlsql_metricdb.jsonl")
+        rc, out = ck.go_run("logqlsql", ["--mode", "metricdb", "--seed", ck.seed, "--n", ck.n(130, 3000), "--dbs", 2, "--out", outp], timeout=1800)
+        if rc != 0:
+            ck.obligation("harness logqlsql --mode metricdb ran", False, out[-1500:])
+            return
+        cases = [json.loads(l) for l in open(outp)]
+        corpus = os.path.join(CORPUS, "exec.jsonl")
+        if os.path.exists(corpus):
+            outc = os.path.join(ck.work, "logqlsql_exec_corpus.jsonl")
+            rc, out = ck.go_run("logqlsql", ["--cases", corpus, "--out", outc])
+            if rc == 0:
+                wit = [json.loads(l) for l in open(outc)]
+                for c in wit:
+                    c["id"] = 3000000 + c["id"]
+                    c["class"] = (c.get("class") or []) + ["corpus"]
+                cases = wit + cases
+    # tie of the planner MODEL (the theorems speak about its statement): byte for byte on every executed case
+    usable, mism, _ = sqltext.compare_metric(ck, cases, name="logqlm_exec")
+    ck.obligation("correspondence on the %d executed cases: the model's statement is the implementation's statement, byte for byte" % len(usable),
+                  mism is not None and not mism, "; ".join("%s => %s" % (c["query"], c.get("diff")) for c in (mism or [])[:3]))
+    if mism:
+        ck.metric_mismatch_cases = getattr(ck, "metric_mismatch_cases", []) + mism
+    # what is EXECUTED is the implementation's own statement: its text parsed back (harness/sqlparse + impltree.go), every WITH
+    # reference bound by alias to the member of the statement's WITH list (LogqlSemCheck.prep); whether the model's text agrees
+    # plays no part in it. A statement whose text does not parse falls back to the model's statement when that is byte-identical.
+    bad_ids = {c["id"] for c in (mism or [])}
+    run = [c for c in usable if c.get("sql") and c.get("dbs_ml") and (c.get("sql_tree_ml") or c["id"] not in bad_ids)]
+    unparsed = [c for c in run if not c.get("sql_tree_ml")]
+    ck.obligation("execution: the text of every executed statement parses back into the tree of model/Sql.v (%d of %d)" % (len(run) - len(unparsed), len(run)),
+                  not unparsed, "; ".join("%s => %s" % (c["query"], c.get("sql_tree_err")) for c in unparsed[:3]))
+    xr = ExecRunner(ck)
+    try:
+        exec_judged(ck, xr, run, replay is not None)
+    finally:
+        xr.close()
+
+
+def exec_judged(ck, xr, run, is_replay):
+    res = judge_exec(ck, xr, run, "replay" if is_replay else "logqlx")
+    if res is None:
+        return
+    r, hist, differ, noeval, distinct = res
+    byid = {c["id"]: c for c in run}
+    verd, got, vdef, wdef, m15 = r["verd"], r["got"], r["vdef"], r["wdef"], r["m15"]
     ck.extra["exec_verdicts"] = hist
     cls = {}
     for c in run:
@@ -483,21 +603,16 @@ def run_exec(ck):
     judged = hist["agree"] + hist["tie-dependent"] + hist["differ"]
     ck.coverage["evaluations"] += judged
     ck.coverage["distinct_nontrivial"] += len(distinct)
-    ck.obligation("execution: the statement of every executed case (%d statements x databases judged) answers metric_ref_db over the stored data (SqlEvalAgg)" % judged,
+    ck.obligation("execution: the implementation's statement of every executed case (%d statements x databases judged) answers metric_ref_db over the stored data (SqlEvalAgg)" % judged,
                   not differ, "; ".join(byid[i]["query"] for i, _ in differ[:3]))
     ck.obligation("execution: at most 5%% of the statements fall outside the evaluated SQL subset (%d of %d)" % (len(noeval), judged + len(noeval)),
                   len(noeval) * 20 <= judged + len(noeval), "; ".join(byid[i]["query"] for i, _ in noeval[:3]))
     if differ:
         i, k = min(differ, key=lambda ik: (len(byid[ik[0]]["dbs"][ik[1]]["samples"]), len(byid[ik[0]]["query"])))
-        c = byid[i]
-        ck.violation({"property": "C08", "part": "logql_metric_correct", "kind": "the statement, executed over the database, answers other series / values than the definition",
-                      "case": {"query": c["query"], "ctx": c["ctx"], "db": c["dbs"][k]}, "sql": c["sql"][0][:3000],
-                      "got_from_statement": got.get((i, k)), "expected_by_definition": want.get((i, k)),
-                      "failing_input": "the database of this case (series / samples as listed), query and context as given",
-                      "replay": "harness logqlsql --cases <file with this case (fields query, ctx, runs, metric, dbs)>, then checks/c08.py run_exec"})
+        exec_violation(ck, xr, byid[i], k, r, shrink=not is_replay)
     # ---- a vector aggregation without grouping clause, against the DEFINITION (one series {}): finding agg-without-grouping-keeps-streams
     known = ck.known_findings()
-    nog = [(i, k) for (i, k), v in sorted(vdef.items()) if v == 1 and not (m15.get(i) and (byid[i]["ctx"]["from_ns"] % 15000000000 or byid[i]["ctx"]["to_ns"] % 15000000000))]
+    nog = [(i, k) for (i, k), v in sorted(vdef.items()) if v == 1 and not r["unaligned"](i)]
     ck.extra["exec_agg_without_grouping_hits"] = len(nog)
     if nog:
         i, k = min(nog, key=lambda ik: (len(byid[ik[0]]["dbs"][ik[1]]["samples"]), len(byid[ik[0]]["query"])))
@@ -510,10 +625,34 @@ def run_exec(ck):
             ck.violation({"property": "C08", "part": "output_series_are_grouped_label_sets", "kind": "a vector aggregation without by/without keeps one series per stream; the definition has one series with the empty label set",
                           "case": {"query": c["query"], "ctx": c["ctx"], "db": c["dbs"][k]}, "sql": c["sql"][0][:3000],
                           "got_from_statement": got.get((i, k)), "expected_by_definition": wdef.get((i, k)),
-                          "failing_input": "the database of this case", "replay": "harness logqlsql --cases <file with this case>, then checks/c08.py run_exec"})
+                          "failing_input": "the database of this case", "replay": "bin/check C08 --replay <this file>"})
     if run:
         c = run[0]
         ck.add_samples([{"exec": {"query": c["query"], "ctx": c["ctx"], "db": c["dbs"][0], "verdict": verd.get((c["id"], 0))}}])
+
+
+def run_replay(ck):
+    """bin/check C08 --replay <file>: the (query, ctx, db) of an execution replay goes through the real parser and planners again;
+    the statement they print is parsed back, executed over the recorded database and compared with the definition"""
+    obj = json.load(open(ck.replay))
+    case = obj.get("case") or {}
+    if not (case.get("query") and case.get("ctx") and case.get("db")):
+        ck.obligation("replay file carries a (query, ctx, db) triple (replays of the other parts name their harness command in the field `replay`)", False, "part=%s" % obj.get("part"))
+        return
+    if not ck.go_build("logqlsql"):
+        ck.obligation("harness logqlsql builds against the repository", False, ck.build_out[-1500:])
+        return
+    run_exec(ck, replay={"id": 1, "query": case["query"], "ctx": case["ctx"], "dbs": [case["db"]]})
+
+
+def report_text_mismatch(ck):
+    """a text mismatch between planner model and implementation that no oracle and no execution turned into a failing input: the
+    tie is broken, no concrete input"""
+    mism = getattr(ck, "metric_mismatch_cases", [])
+    if mism and not ck.violations:
+        worst = min(mism, key=lambda c: len(c["query"]))
+        ck.violation({"property": "C08", "part": "correspondence", "kind": "planner model and implementation print different SQL; the judged fragments and the executed statements still agree with the reference",
+                      "case": witness_rows(worst, worst.get("diff", ""))}, no_input=True)
 
 
 def scan_source(ck):
@@ -547,8 +686,12 @@ def run(ck):
                             "execution: metric queries of the sub-grammar with a reference meaning (matchers = / =~, line filters, label filters incl. numeric and and/or, json parameters, drop, unwrap; "
                             "every range function, vector operator with and without grouping, quantile, comparison; ranges 5s-1m, steps 1s-2m; half of the windows on whole 15 s slots) x 2 databases "
                             "(2-5 series sharing / not sharing grouped labels, 1-5 lines each on and around window and bucket bounds, other sample types); non-trivial = agreeing case with >= 3 stored lines, distinct by (query, context, database). ")
+    if ck.replay:
+        run_replay(ck)
+        return
     ck.coq_props()
     scan_source(ck)
     run_sql(ck)
     run_exec(ck)
     run_post(ck)
+    report_text_mismatch(ck)
